@@ -273,8 +273,110 @@ def render(src_dir=None) -> str:
         body = [s for s in pm.body if not is_doc(s)]
         if "property" not in [U(d) for d in pm.decorator_list] or len(body) != 1 or U(body[0]) != f"return self.{priv}":
             raise Unsupported(f"LocalGrid.{prop}: not the plain getter `return self.{priv}`")
-    parts.append("end\n\nend GridVerif.Gen.LocalGridCtor\n")
+    parts.append("end\n")
+    parts.append(dispatch_table(src_dir or SRC))
+    parts.append("end GridVerif.Gen.LocalGridCtor\n")
     return "\n".join(parts)
+
+
+# ----------------------------------------------------------------------------------------------------
+# which class's method does every grid class execute?  (round 4)
+# ----------------------------------------------------------------------------------------------------
+DISPATCH_METHODS = ("get_localgrid", "__getitem__")
+DISPATCH_PROPS = ("points", "weights")
+
+
+def dispatch_rows(src_dir):
+    """Every class of the non-test modules of src/grid that derives from `Grid` (transitively, bases resolved by
+    name), in module / source order, with the class whose `get_localgrid`, `__getitem__`, `points` getter, `points`
+    setter, `weights` setter it executes ("-": the attribute has no setter in the class that defines it last)."""
+    classes, order = {}, []
+    for path in sorted(src_dir.glob("*.py")):
+        tree = ast.parse(path.read_text())
+        for n in tree.body:
+            if isinstance(n, ast.ClassDef):
+                if n.name in classes:
+                    raise Unsupported(f"class {n.name} is defined twice ({classes[n.name][0]}, {path.name})")
+                bases = []
+                for b in n.bases:
+                    bases.append(b.id if isinstance(b, ast.Name) else (b.attr if isinstance(b, ast.Attribute) else U(b)))
+                classes[n.name] = (path.name, n, bases)
+                order.append(n.name)
+        for n in ast.walk(tree):
+            # a class statement anywhere else (nested, conditional) or an assignment of these methods from outside
+            if isinstance(n, ast.Assign):
+                for t in n.targets:
+                    # (`obj.points = value` on an instance is the setter; binding a *method* name, or a property on
+                    #  something spelled like a class / type(...) / __class__, re-binds the dispatch)
+                    if isinstance(t, ast.Attribute) and (t.attr in DISPATCH_METHODS or (
+                            t.attr in DISPATCH_PROPS and (U(t.value)[:1].isupper() or "__class__" in U(t.value) or "type(" in U(t.value)))):
+                        raise Unsupported(f"{path.name}:{n.lineno}: `{U(t)} = …` re-binds a dispatched method")
+            if isinstance(n, ast.Call) and U(n.func) == "setattr" and len(n.args) >= 2 and isinstance(n.args[1], ast.Constant) \
+                    and n.args[1].value in DISPATCH_METHODS + DISPATCH_PROPS:
+                raise Unsupported(f"{path.name}:{n.lineno}: setattr(…, {n.args[1].value!r}, …)")
+
+    def mro(c):
+        out, cur = [], c
+        while cur in classes:
+            out.append(cur)
+            bs = [b for b in classes[cur][2] if b in classes]
+            if len(bs) > 1:
+                raise Unsupported(f"class {cur}: several bases inside the package ({bs})")
+            cur = bs[0] if bs else None
+        return out
+
+    def defs(c):
+        """name -> ('method'|'getter'|'setter:<class whose property is extended>', node) for the class body"""
+        out = {}
+        for m in classes[c][1].body:
+            if isinstance(m, ast.FunctionDef):
+                decs = [U(d) for d in m.decorator_list]
+                if "property" in decs:
+                    out.setdefault(m.name, {})["getter"] = c
+                for d in decs:
+                    if d.endswith(".setter"):
+                        owner = d[:-len(".setter")].split(".")
+                        out.setdefault(m.name, {})["setter"] = c
+                        if len(owner) == 2:           # @Base.points.setter: the getter of Base's property is kept
+                            out[m.name].setdefault("getter_from", owner[0])
+                if not decs:
+                    out.setdefault(m.name, {})["method"] = c
+            elif isinstance(m, ast.Assign):
+                for t in m.targets:
+                    if isinstance(t, ast.Name) and t.id in DISPATCH_METHODS + DISPATCH_PROPS:
+                        raise Unsupported(f"class {c}: `{t.id} = …` in the class body")
+        return out
+    rows = []
+    for c in order:
+        chain = mro(c)
+        if "Grid" not in chain:
+            continue
+        dd = {k: defs(k) for k in chain}
+        row = [c, classes[c][0][:-3]]
+        for meth in DISPATCH_METHODS:
+            row.append(next((k for k in chain if "method" in dd[k].get(meth, {})), "-"))
+        for prop in DISPATCH_PROPS:
+            k0 = next((k for k in chain if prop in dd[k]), None)
+            if k0 is None:
+                row += ["-", "-"]
+                continue
+            info = dd[k0][prop]
+            getter = info.get("getter")
+            if getter is None and "getter_from" in info:
+                base = info["getter_from"]
+                getter = next((k for k in mro(base) if "getter" in dd.get(k, defs(k)).get(prop, {})), "-")
+            row += [getter or "-", info.get("setter", "-")]
+        rows.append(row)
+    return rows
+
+
+def dispatch_table(src_dir):
+    rows = dispatch_rows(src_dir)
+    body = ",\n   ".join("(" + ", ".join(f'"{x}"' for x in r) + ")" for r in rows)
+    return ("/-- Every class of src/grid deriving from `Grid`: (class, module, class whose `get_localgrid` it executes, class\n"
+            "whose `__getitem__` it executes, `points` getter, `points` setter, `weights` getter, `weights` setter); `-`: none. -/\n"
+            "def gridDispatch : List (String × String × String × String × String × String × String × String) :=\n  ["
+            + body + "]\n")
 
 
 def generate():
